@@ -225,11 +225,15 @@ def abortTail (fl : Flags) (s : St) (j : Nat) : St :=
 def codeTail (s : St) (j : Nat) : St :=
   (s.put j { (s.jobs j) with state := if (s.jobs j).code = 0 then .done else .error }).finish j
 
+/-- an aborted start gives back at once what it had taken (repair `abortReleases`). -/
+def abortRelease (fl : Flags) (s : St) (j : Nat) : St :=
+  if fl.abortReleases then s.releaseAll j (s.jobs j).held else s
+
 /-- the start segment after the acquisition loop. -/
 def enterTail (fl : Flags) (r : St × Option Nat) (j : Nat) : St :=
   match r.2 with
   | some d =>
-    let s := r.1.check fl j d
+    let s := (abortRelease fl r.1 j).check fl j d
     s.put j { (s.jobs j) with pc := .lockExitAbort } [] [(.lockExit, j)]
   | none =>
     r.1.put j { (r.1.jobs j) with launches := (r.1.jobs j).launches + 1, state := .running, pc := .lockExitRun } [] [(.lockExit, j)]
@@ -562,6 +566,11 @@ theorem wake_inv1 (fl : Flags) (s : St) (x : Nat) (h : Inv1E s x) : Inv1 (s.runC
   · apply loopHead_inv1
     exact inv1E_put_self s x _ hs h
 
+theorem abortRelease_inv1E (fl : Flags) (s : St) (x : Nat) (h : Inv1E s x) : Inv1E (abortRelease fl s x) x := by
+  unfold abortRelease; split
+  · exact releaseAll_inv1E s x _ h
+  · exact h
+
 theorem enterTail_inv1 (fl : Flags) (r : St × Option Nat) (x : Nat) (hA : Inv1E r.1 x) :
     Inv1 (enterTail fl r x) := by
   obtain ⟨s1, fa⟩ := r
@@ -569,7 +578,7 @@ theorem enterTail_inv1 (fl : Flags) (r : St × Option Nat) (x : Nat) (hA : Inv1E
   cases fa with
   | some d =>
     simp only
-    have hc := check_inv1E fl s1 x d x hA
+    have hc := check_inv1E fl _ x d x (abortRelease_inv1E fl s1 x hA)
     have hs := idle_sleeping hc.2
     refine inv1_put_final _ x _ _ _ hc ?_ ?_ ?_ ?_
     · intro i hi; simp [hi, Ne.symm hi]
@@ -775,12 +784,17 @@ def target : Cb → Nat
   | .register j | .start j | .wake j | .resume j | .check j _ | .notifyCheck j _ => j
   | .waiterRun => 0
 
+theorem abortRelease_frame (fl : Flags) (s : St) (x : Nat) : Frame s (abortRelease fl s x) x := by
+  unfold abortRelease; split
+  · exact releaseAll_frame s x _
+  · exact Frame.refl s x
+
 theorem enterTail_frame (fl : Flags) (s : St) (r : St × Option Nat) (x : Nat) (h : Frame s r.1 x) :
     Frame s (enterTail fl r x) x := by
   obtain ⟨s1, fa⟩ := r
   unfold enterTail
   cases fa with
-  | some d => exact (h.trans (check_frame fl s1 x d)).trans (Frame.put _ x _ _ _ ⟨rfl, rfl, rfl, rfl⟩)
+  | some d => exact ((h.trans (abortRelease_frame fl s1 x)).trans (check_frame fl _ x d)).trans (Frame.put _ x _ _ _ ⟨rfl, rfl, rfl, rfl⟩)
   | none => exact h.trans (Frame.put _ x _ _ _ ⟨rfl, rfl, rfl, rfl⟩)
 
 theorem abortTail_frame (fl : Flags) (s : St) (x : Nat) : Frame s (abortTail fl s x) x := by
@@ -1310,6 +1324,12 @@ theorem acquireAll_job (s : St) (x k d : Nat) :
 
 theorem jlocal_held (jb : Job) (hl : List Nat) (h : JLocal jb) : JLocal { jb with held := hl } := h
 
+theorem abortRelease_job (fl : Flags) (s : St) (x : Nat) :
+    ∃ hl, (abortRelease fl s x).jobs x = { (s.jobs x) with held := hl } := by
+  unfold abortRelease; split
+  · exact ⟨[], releaseAll_job s x _⟩
+  · exact ⟨(s.jobs x).held, rfl⟩
+
 theorem enterTail_jl (fl : Flags) (hg : fl.readyGuarded = true) (r : St × Option Nat) (x : Nat)
     (h : JLocal (r.1.jobs x)) (hpc : (r.1.jobs x).pc = .lockEnter) : JLocal ((enterTail fl r x).jobs x) := by
   obtain ⟨s1, fa⟩ := r
@@ -1317,9 +1337,10 @@ theorem enterTail_jl (fl : Flags) (hg : fl.readyGuarded = true) (r : St × Optio
   cases fa with
   | some d =>
     simp only [put_jobs, upd_same]
-    have hc := check_jl fl hg s1 x d x h
-    have hp : ((s1.check fl x d).jobs x).pc = .lockEnter := by rw [check_pc]; exact hpc
-    generalize (s1.check fl x d).jobs x = jb at hc hp
+    obtain ⟨hl, e⟩ := abortRelease_job fl s1 x
+    have hc := check_jl fl hg (abortRelease fl s1 x) x d x (by rw [e]; exact h)
+    have hp : (((abortRelease fl s1 x).check fl x d).jobs x).pc = .lockEnter := by rw [check_pc, e]; exact hpc
+    generalize ((abortRelease fl s1 x).check fl x d).jobs x = jb at hc hp
     unfold JLocal at hc ⊢
     simp only [hp, pcEnd, pcEarly, pcRun] at hc ⊢
     grind
@@ -1669,12 +1690,17 @@ theorem startJob_frameQ (fl : Flags) (s : St) (x : Nat) : FrameQ s (s.startJob f
   · exact h1.trans (FrameQ.put _ x _ _ _ rfl)
   · exact (h1.trans (FrameQ.put _ x _ _ _ rfl)).trans (registerDeps_frameQ fl _ x _ _)
 
+theorem abortRelease_frameQ (fl : Flags) (s : St) (x : Nat) : FrameQ s (abortRelease fl s x) := by
+  unfold abortRelease; split
+  · exact releaseAll_frameQ s x _
+  · exact FrameQ.refl s
+
 theorem enterTail_frameQ (fl : Flags) (s : St) (r : St × Option Nat) (x : Nat) (h : FrameQ s r.1) :
     FrameQ s (enterTail fl r x) := by
   obtain ⟨s1, fa⟩ := r
   unfold enterTail
   cases fa with
-  | some d => exact (h.trans (check_frameQ fl s1 x d)).trans (FrameQ.put _ x _ _ _ rfl)
+  | some d => exact ((h.trans (abortRelease_frameQ fl s1 x)).trans (check_frameQ fl _ x d)).trans (FrameQ.put _ x _ _ _ rfl)
   | none => exact h.trans (FrameQ.put _ x _ _ _ rfl)
 
 theorem abortTail_frameQ (fl : Flags) (s : St) (x : Nat) : FrameQ s (abortTail fl s x) := by
@@ -3510,6 +3536,11 @@ theorem acquireAll_invD (s : St) (x k d : Nat) (h : InvD s) :
   let r := acquireAll_ind InvD x (d + k) (fun s' d _ _ h' => acqOne_invD s' x d h') k d s rfl h
   ⟨r.1, fun e he => (r.2 e he).1⟩
 
+theorem abortRelease_invD (fl : Flags) (s : St) (x : Nat) (h : InvD s) : InvD (abortRelease fl s x) := by
+  unfold abortRelease; split
+  · exact releaseAll_invD s x _ h
+  · exact h
+
 theorem enterTail_invD (fl : Flags) (hg : fl.readyGuarded = true) (r : St × Option Nat) (x : Nat)
     (hL : JLocal (r.1.jobs x)) (h : InvD r.1) (hpc : (r.1.jobs x).pc = .lockEnter)
     (hlt : ∀ e, r.2 = some e → e < (r.1.jobs x).deps.length) : InvD (enterTail fl r x) := by
@@ -3521,8 +3552,10 @@ theorem enterTail_invD (fl : Flags) (hg : fl.readyGuarded = true) (r : St × Opt
   cases fa with
   | some d =>
     simp only
-    have hc := check_invD fl hg s1 x d hL h ⟨hst, hlt d rfl⟩
-    have hpc' : ((s1.check fl x d).jobs x).pc = .lockEnter := by rw [check_pc]; exact hpc
+    obtain ⟨hl, e⟩ := abortRelease_job fl s1 x
+    have hc := check_invD fl hg (abortRelease fl s1 x) x d (by rw [e]; exact hL) (abortRelease_invD fl s1 x h)
+      ⟨by unfold Started; rw [e]; exact hst, by rw [e]; exact hlt d rfl⟩
+    have hpc' : (((abortRelease fl s1 x).check fl x d).jobs x).pc = .lockEnter := by rw [check_pc, e]; exact hpc
     have hJ' := hc.recs x
     have hst' := started_of_pc hJ' (by rw [hpc']; exact ⟨fun e => (by cases e), fun e => (by cases e)⟩)
     have hr := hJ'.lockReady (Or.inl hpc')
@@ -4033,9 +4066,10 @@ structure JQ' (jb : Job) : Prop where
   waitNoFail : jb.state = .waiting → ∀ i, i < jb.deps.length → (depAt jb i).cur ≠ .fail
 
 /-- invariant G: locks are held only between a start and its lock-release segment. -/
-def HeldPc (jb : Job) : Prop := jb.held ≠ [] → jb.pc = .lockExitAbort ∨ jb.pc = .lockExitRun ∨ jb.pc = .codeWait
+def HeldPc (fl : Flags) (jb : Job) : Prop :=
+  jb.held ≠ [] → (fl.abortReleases = false ∧ jb.pc = .lockExitAbort) ∨ jb.pc = .lockExitRun ∨ jb.pc = .codeWait
 
-def JQ (jb : Job) : Prop := JQ' jb ∧ HeldPc jb
+def JQ (fl : Flags) (jb : Job) : Prop := JQ' jb ∧ HeldPc fl jb
 
 theorem dc_waitUnsat (fl : Flags) (jb : Job) (d : Nat) (st : DS) (h : jb.state = .waiting → jb.unsat ≠ 0)
     (hw : (depChanged fl jb d st).1.state = .waiting) : (depChanged fl jb d st).1.unsat ≠ 0 := by
@@ -4091,16 +4125,16 @@ theorem depChanged_jq' (fl : Flags) (hg : fl.readyGuarded = true) (jb : Job) (d 
     obtain ⟨q1, _, q3⟩ := depChanged_quiet fl jb d st he
     rw [q1]; exact h.evtClear hp q3
 
-theorem depChanged_heldPc (fl : Flags) (jb : Job) (d : Nat) (st : DS) (h : HeldPc jb) :
-    HeldPc (depChanged fl jb d st).1 := by
+theorem depChanged_heldPc (fl fl' : Flags) (jb : Job) (d : Nat) (st : DS) (h : HeldPc fl' jb) :
+    HeldPc fl' (depChanged fl jb d st).1 := by
   have f := depChanged_state fl jb d st
   unfold HeldPc; rw [f.1, f.2.2.2.2.1]; exact h
 
 /-- `loopHead` establishes the sleeping / waiting facts. -/
-theorem loopHeadJ_jq (jbw : Job) (hheld : jbw.held = [])
+theorem loopHeadJ_jq (fl : Flags) (jbw : Job) (hheld : jbw.held = [])
     (hst : jbw.state = .waiting ∨ jbw.state = .ready ∨ jbw.state = .error ∨ jbw.state = .done)
     (hre : RE jbw) (hse : SE jbw) (hwu : jbw.state = .waiting → jbw.unsat ≠ 0)
-    (hwf : jbw.state = .waiting → ∀ i, i < jbw.deps.length → (depAt jbw i).cur ≠ .fail) : JQ (loopHeadJ jbw) := by
+    (hwf : jbw.state = .waiting → ∀ i, i < jbw.deps.length → (depAt jbw i).cur ≠ .fail) : JQ fl (loopHeadJ jbw) := by
   have hw : jbw.state.finished = false → jbw.state ≠ .ready → jbw.state = .waiting := by
     intro hf hr
     rcases hst with h | h | h | h
@@ -4129,13 +4163,13 @@ theorem loopHeadJ_jq (jbw : Job) (hheld : jbw.held = [])
 theorem acquireAll_lt (s : St) (x k d : Nat) : ∀ e, (St.acquireAll s x k d).2 = some e → e < d + k :=
   fun e he => ((acquireAll_ind (fun _ => True) x (d + k) (fun _ _ _ _ _ => trivial) k d s rfl trivial).2 e he).1
 
-theorem heldPc_nil {jb : Job} (h : HeldPc jb) (hp : jb.pc ≠ .lockExitAbort ∧ jb.pc ≠ .lockExitRun ∧ jb.pc ≠ .codeWait) :
+theorem heldPc_nil {fl : Flags} {jb : Job} (h : HeldPc fl jb) (hp : jb.pc ≠ .lockExitAbort ∧ jb.pc ≠ .lockExitRun ∧ jb.pc ≠ .codeWait) :
     jb.held = [] := by
   cases hh : jb.held with
   | nil => rfl
   | cons a l =>
     have := h (by rw [hh]; simp)
-    rcases this with e | e | e
+    rcases this with ⟨_, e⟩ | e | e
     · exact absurd e hp.1
     · exact absurd e hp.2.1
     · exact absurd e hp.2.2
@@ -4164,7 +4198,7 @@ theorem depChanged_rq (fl : Flags) (hg : fl.readyGuarded = true) (jb : Job) (d :
    dc_waitNoFail fl hg jb d st hd h.waitNoFail⟩
 
 theorem regPhase_rq (fl : Flags) (hg : fl.readyGuarded = true) (s : St) (x : Nat) (hJ : JDeep (s.jobs x))
-    (hQ : JQ (s.jobs x)) (hu : (s.jobs x).state = .unscheduled) : RQ ((regPhase fl s x).jobs x) := by
+    (hQ : JQ fl (s.jobs x)) (hu : (s.jobs x).state = .unscheduled) : RQ ((regPhase fl s x).jobs x) := by
   have hp := hJ.fresh hu
   have hheld : (s.jobs x).held = [] :=
     heldPc_nil hQ.2 (by rcases hp with e | e <;> rw [e] <;> exact ⟨fun e => (by cases e), fun e => (by cases e), fun e => (by cases e)⟩)
@@ -4198,21 +4232,21 @@ theorem startJob_job (fl : Flags) (s : St) (x : Nat) :
   split <;> simp
 
 theorem startJob_jq (fl : Flags) (hg : fl.readyGuarded = true) (s : St) (x : Nat) (hJ : JDeep (s.jobs x))
-    (hQ : JQ (s.jobs x)) (hu : (s.jobs x).state = .unscheduled) : JQ ((s.startJob fl x).jobs x) := by
+    (hQ : JQ fl (s.jobs x)) (hu : (s.jobs x).state = .unscheduled) : JQ fl ((s.startJob fl x).jobs x) := by
   rw [startJob_job]
   have h := regPhase_rq fl hg s x hJ hQ hu
   generalize (regPhase fl s x).jobs x = jb2 at h
   split
-  · exact loopHeadJ_jq _ h.held (Or.inr (Or.inr (Or.inr rfl))) (fun hr => (by cases hr)) h.se
+  · exact loopHeadJ_jq fl _ h.held (Or.inr (Or.inr (Or.inr rfl))) (fun hr => (by cases hr)) h.se
       (fun hw => (by cases hw)) (fun hw => (by cases hw))
-  · refine loopHeadJ_jq _ h.held ?_ h.re h.se h.waitUnsat h.waitNoFail
+  · refine loopHeadJ_jq fl _ h.held ?_ h.re h.se h.waitUnsat h.waitNoFail
     rcases h.st3 with e | e | e
     · exact Or.inl e
     · exact Or.inr (Or.inl e)
     · exact Or.inr (Or.inr (Or.inl e))
 
-theorem wake_jq (fl : Flags) (s : St) (x : Nat) (hQ : JQ (s.jobs x)) (hpc : (s.jobs x).pc = .evtWait) :
-    JQ ((s.runCb fl (.wake x)).jobs x) := by
+theorem wake_jq (fl : Flags) (s : St) (x : Nat) (hQ : JQ fl (s.jobs x)) (hpc : (s.jobs x).pc = .evtWait) :
+    JQ fl ((s.runCb fl (.wake x)).jobs x) := by
   have hheld : (s.jobs x).held = [] :=
     heldPc_nil hQ.2 (by rw [hpc]; exact ⟨fun e => (by cases e), fun e => (by cases e), fun e => (by cases e)⟩)
   simp only [St.runCb]
@@ -4224,7 +4258,7 @@ theorem wake_jq (fl : Flags) (s : St) (x : Nat) (hQ : JQ (s.jobs x)) (hpc : (s.j
   · rename_i hr
     rw [loopHead_job]
     simp only [put_jobs, upd_same]
-    refine loopHeadJ_jq _ hheld ?_ (fun h => absurd h hr) (fun _ => rfl) hQ.1.waitUnsat hQ.1.waitNoFail
+    refine loopHeadJ_jq fl _ hheld ?_ (fun h => absurd h hr) (fun _ => rfl) hQ.1.waitUnsat hQ.1.waitNoFail
     rcases hQ.1.waitState hpc with e | e | e
     · exact Or.inl e
     · exact Or.inr (Or.inl e)
@@ -4235,7 +4269,7 @@ theorem jq'_held {jb : Job} (hl : List Nat) (h : JQ' jb) : JQ' { jb with held :=
 
 theorem enterTail_jq (fl : Flags) (hg : fl.readyGuarded = true) (r : St × Option Nat) (x : Nat)
     (hJ : ∀ jb, jb = (enterTail fl r x).jobs x → JDeep jb) (hQ : JQ' (r.1.jobs x))
-    (hlt : ∀ e, r.2 = some e → e < (r.1.jobs x).deps.length) : JQ ((enterTail fl r x).jobs x) := by
+    (hlt : ∀ e, r.2 = some e → e < (r.1.jobs x).deps.length) : JQ fl ((enterTail fl r x).jobs x) := by
   have hJ' := hJ _ rfl
   revert hJ'
   obtain ⟨s1, fa⟩ := r
@@ -4246,11 +4280,23 @@ theorem enterTail_jq (fl : Flags) (hg : fl.readyGuarded = true) (r : St × Optio
     intro hJ'
     have hr := hJ'.lockReady (Or.inr rfl)
     simp only at hr
-    have hc : JQ' ((s1.check fl x d).jobs x) := by
-      rw [check_job]; exact depChanged_jq' fl hg _ d _ (hlt d rfl) hQ
-    refine ⟨⟨hc.se, fun hp => (by cases hp), fun hp => (by cases hp), fun hw => ?_, fun hw => ?_⟩, fun _ => Or.inl rfl⟩
+    obtain ⟨hl, e⟩ := abortRelease_job fl s1 x
+    have hc : JQ' (((abortRelease fl s1 x).check fl x d).jobs x) := by
+      rw [check_job]; exact depChanged_jq' fl hg _ d _ (by rw [e]; exact hlt d rfl) (by rw [e]; exact jq'_held hl hQ)
+    refine ⟨⟨hc.se, fun hp => (by cases hp), fun hp => (by cases hp), fun hw => ?_, fun hw => ?_⟩, fun hh => ?_⟩
     · simp only at hw; rw [hr] at hw; cases hw
     · simp only at hw; rw [hr] at hw; cases hw
+    · left
+      refine ⟨?_, rfl⟩
+      cases hfl : fl.abortReleases
+      · rfl
+      · exfalso
+        apply hh
+        show (((abortRelease fl s1 x).check fl x d).jobs x).held = []
+        rw [check_job, (depChanged_state fl _ d _).2.2.2.2.1]
+        unfold abortRelease
+        rw [hfl]; simp only [if_true]
+        rw [releaseAll_job]
   | none =>
     simp only [put_jobs, upd_same]
     intro _
@@ -4259,7 +4305,7 @@ theorem enterTail_jq (fl : Flags) (hg : fl.readyGuarded = true) (r : St × Optio
 
 theorem abortTail_jq (fl : Flags) (ha : fl.abortRechecks = true) (s1 : St) (x : Nat) (hJ : JDeep (s1.jobs x))
     (hQ : JQ' (s1.jobs x)) (hheld : (s1.jobs x).held = []) (hpc : (s1.jobs x).pc = .lockExitAbort) :
-    JQ ((abortTail fl s1 x).jobs x) := by
+    JQ fl ((abortTail fl s1 x).jobs x) := by
   have hr := hJ.lockReady (Or.inr hpc)
   have hnf := jdeep_ready_nofail_all hJ (Or.inl hr)
   unfold abortTail
@@ -4268,17 +4314,17 @@ theorem abortTail_jq (fl : Flags) (ha : fl.abortRechecks = true) (s1 : St) (x : 
   simp only [put_jobs, upd_same]
   have e := eventSet_frame { (s1.jobs x) with state := JS.ready }
   split
-  · refine loopHeadJ_jq _ (by rw [e.2.2.2.2.2.2.2.1]; exact hheld) (Or.inr (Or.inl e.2.1))
+  · refine loopHeadJ_jq fl _ (by rw [e.2.2.2.2.2.2.2.1]; exact hheld) (Or.inr (Or.inl e.2.1))
       (fun _ => e.2.2.2.2.2.2.2.2.2.2) (eventSet_SE _ hQ.se) (fun hw => ?_) (fun hw => ?_)
     · rw [e.2.1] at hw; cases hw
     · rw [e.2.1] at hw; cases hw
   · rename_i hc
-    refine loopHeadJ_jq _ hheld (Or.inl rfl) (fun h => (by cases h)) hQ.se (fun _ => ?_) (fun _ => hnf)
+    refine loopHeadJ_jq fl _ hheld (Or.inl rfl) (fun h => (by cases h)) hQ.se (fun _ => ?_) (fun _ => hnf)
     intro hz
     exact hc ⟨ha, hz⟩
 
-theorem codeTail_jq (s1 : St) (x : Nat) (hQ : JQ' (s1.jobs x)) (hheld : (s1.jobs x).held = []) :
-    JQ ((codeTail s1 x).jobs x) := by
+theorem codeTail_jq (fl : Flags) (s1 : St) (x : Nat) (hQ : JQ' (s1.jobs x)) (hheld : (s1.jobs x).held = []) :
+    JQ fl ((codeTail s1 x).jobs x) := by
   unfold codeTail
   rw [finish_job]
   simp only [put_jobs, upd_same]
@@ -4287,8 +4333,8 @@ theorem codeTail_jq (s1 : St) (x : Nat) (hQ : JQ' (s1.jobs x)) (hheld : (s1.jobs
   · simp only at hw; split at hw <;> cases hw
 
 theorem resume_jq (fl : Flags) (hg : fl.readyGuarded = true) (ha : fl.abortRechecks = true) (s : St) (x : Nat)
-    (hJ : JDeep (s.jobs x)) (hJ' : JDeep ((s.resume fl x).jobs x)) (hQ : JQ (s.jobs x)) :
-    JQ ((s.resume fl x).jobs x) := by
+    (hJ : JDeep (s.jobs x)) (hJ' : JDeep ((s.resume fl x).jobs x)) (hQ : JQ fl (s.jobs x)) :
+    JQ fl ((s.resume fl x).jobs x) := by
   cases hp : (s.jobs x).pc with
   | lockEnter =>
     rw [resume_lockEnter fl s x hp] at hJ' ⊢
@@ -4311,7 +4357,7 @@ theorem resume_jq (fl : Flags) (hg : fl.readyGuarded = true) (ha : fl.abortReche
       fun _ => Or.inr (Or.inr rfl)⟩
   | codeWait =>
     rw [resume_codeWait fl s x hp]
-    refine codeTail_jq _ x ?_ ?_ <;> rw [releaseAll_job]
+    refine codeTail_jq fl _ x ?_ ?_ <;> rw [releaseAll_job]
     · exact jq'_held [] hQ.1
   | doneHandler =>
     rw [resume_doneHandler fl s x hp]
@@ -4324,18 +4370,18 @@ theorem resume_jq (fl : Flags) (hg : fl.readyGuarded = true) (ha : fl.abortReche
 
 
 
-def JQs (s : St) : Prop := ∀ i, JQ (s.jobs i)
+def JQs (fl : Flags) (s : St) : Prop := ∀ i, JQ fl (s.jobs i)
 
 theorem runCb_jq (fl : Flags) (hg : fl.readyGuarded = true) (ha : fl.abortRechecks = true) (s : St) (cb : Cb)
-    (rest : List Cb) (hC : InvC s) (hr : s.ready = cb :: rest) (h : JQs s) :
-    JQs (({ s with ready := rest } : St).runCb fl cb) := by
+    (rest : List Cb) (hC : InvC s) (hr : s.ready = cb :: rest) (h : JQs fl s) :
+    JQs fl (({ s with ready := rest } : St).runCb fl cb) := by
   intro i
   have hF := runCb_frame fl ({ s with ready := rest } : St) cb
   have hD' := (runCb_invD fl hg s cb rest hC.a hC.st hr hC.f hC.d).1
-  have hchk : ∀ j d, DepOK s j d → JQ ((St.check fl ({ s with ready := rest } : St) j d).jobs j) := by
+  have hchk : ∀ j d, DepOK s j d → JQ fl ((St.check fl ({ s with ready := rest } : St) j d).jobs j) := by
     intro j d hok
     rw [check_job]
-    exact ⟨depChanged_jq' fl hg _ d _ hok.2 (h j).1, depChanged_heldPc fl _ d _ (h j).2⟩
+    exact ⟨depChanged_jq' fl hg _ d _ hok.2 (h j).1, depChanged_heldPc fl fl _ d _ (h j).2⟩
   by_cases hi : i = target cb
   · subst hi
     cases cb with
@@ -4354,19 +4400,19 @@ theorem runCb_jq (fl : Flags) (hg : fl.readyGuarded = true) (ha : fl.abortRechec
   · rw [hF.2.2.2.2.1 i hi]; exact h i
 
 /-- all step-level layers together. -/
-structure InvE (s : St) : Prop where
+structure InvE (fl : Flags) (s : St) : Prop where
   c : InvC s
-  q : JQs s
+  q : JQs fl s
 
-theorem step_invE (fl : Flags) (hg : fl.readyGuarded = true) (ha : fl.abortRechecks = true) (s : St) (h : InvE s) :
-    InvE (s.step fl) := by
+theorem step_invE (fl : Flags) (hg : fl.readyGuarded = true) (ha : fl.abortRechecks = true) (s : St) (h : InvE fl s) :
+    InvE fl (s.step fl) := by
   refine ⟨step_invC fl hg s h.c, ?_⟩
   unfold St.step; split
   · exact h.q
   · rename_i cb rest hr; exact runCb_jq fl hg ha s cb rest h.c hr h.q
 
 theorem apply_invE (fl : Flags) (hg : fl.readyGuarded = true) (ha : fl.abortRechecks = true) (s : St) (ev : Ev)
-    (hok : EvOK s ev) (h : InvE s) : InvE (s.apply fl ev) := by
+    (hok : EvOK s ev) (h : InvE fl s) : InvE fl (s.apply fl ev) := by
   cases ev with
   | step => exact step_invE fl hg ha s h
   | wait => exact ⟨apply_invC fl hg s .wait hok h.c, h.q⟩
@@ -4379,7 +4425,7 @@ theorem apply_invE (fl : Flags) (hg : fl.readyGuarded = true) (ha : fl.abortRech
     refine ⟨apply_invC fl hg s _ hok h.c, ?_⟩
     rw [apply_submit]
     have hpcn := h.c.a.blank s.n (Nat.le_refl _)
-    have h0 : InvE (submitPre s ident deps code marker) := by
+    have h0 : InvE fl (submitPre s ident deps code marker) := by
       refine ⟨submitPre_invC s ident deps code marker hok h.c, ?_⟩
       intro i
       by_cases hi : i = s.n
@@ -4388,7 +4434,7 @@ theorem apply_invE (fl : Flags) (hg : fl.readyGuarded = true) (ha : fl.abortRech
         exact ⟨⟨fun hs => (by cases hs), fun hp => (by cases hp), fun hp => (by cases hp), fun hw => (by cases hw),
           fun hw => (by cases hw)⟩, fun hh => absurd rfl hh⟩
       · rw [submitPre_jobs_ne _ _ _ _ _ _ hi]; exact h.q i
-    have h1 := steps_ind (fun s' => InvE s' ∧ (s'.jobs s.n).pc = .none) fl
+    have h1 := steps_ind (fun s' => InvE fl s' ∧ (s'.jobs s.n).pc = .none) fl
       (fun s' hs' => ⟨step_invE fl hg ha s' hs'.1, by
         rw [step_kind0 fl s' hs'.1.c.a.ctl s.n (by rw [hs'.2]; rfl)]; exact hs'.2⟩)
       (s.ready.length + 1) _ ⟨h0, by simp [submitPre, newJob]⟩
@@ -4408,12 +4454,12 @@ theorem apply_invE (fl : Flags) (hg : fl.readyGuarded = true) (ha : fl.abortRech
           fun hh => absurd hheld hh⟩
     · rw [submitPost_jobs_ne _ _ _ hi]; exact hE.q i
 
-theorem init_invE (totals : List Nat) : InvE (St.init totals) :=
+theorem init_invE (totals : List Nat) : InvE fl (St.init totals) :=
   ⟨init_invC totals, fun i => ⟨⟨fun hs => (by cases hs), fun hp => (by cases hp), fun hp => (by cases hp),
     fun hw => (by cases hw), fun hw => (by cases hw)⟩, fun hh => absurd rfl hh⟩⟩
 
 theorem reachable_invE {fl : Flags} (hg : fl.readyGuarded = true) (ha : fl.abortRechecks = true)
-    {totals : List Nat} {s : St} (h : Reachable fl totals s) : InvE s := by
+    {totals : List Nat} {s : St} (h : Reachable fl totals s) : InvE fl s := by
   induction h with
   | init => exact init_invE totals
   | next _ hok ih => exact apply_invE fl hg ha _ _ hok ih
@@ -4939,6 +4985,20 @@ theorem acquireAll_invQ (s : St) (x k d : Nat) (R : Nat → Nat → Prop) (ex : 
     (h : InvQ s R ex) : InvQ (St.acquireAll s x k d).1 R ex :=
   (acquireAll_ind (fun s' => InvQ s' R ex) x (d + k) (fun s' d _ _ h' => acqOne_invQ s' x d R ex h') k d s rfl h).1
 
+theorem abortRelease_invQ (fl : Flags) (s : St) (x : Nat) (R : Nat → Nat → Prop) (ex : Option (Nat × Nat))
+    (h : InvQ s R ex) : InvQ (abortRelease fl s x) R ex := by
+  unfold abortRelease; split
+  · exact releaseAll_invQ s x _ R ex h
+  · exact h
+
+theorem abortRelease_jl (fl : Flags) (s : St) (x : Nat) (h : JL s) : JL (abortRelease fl s x) := by
+  intro i
+  by_cases hi : i = x
+  · subst hi
+    obtain ⟨hl, e⟩ := abortRelease_job fl s i
+    rw [e]; exact h i
+  · rw [(abortRelease_frame fl s x).2.2.2.2.1 i hi]; exact h i
+
 theorem enterTail_invQ (fl : Flags) (hg : fl.readyGuarded = true) (r : St × Option Nat) (x : Nat)
     (hL : JL r.1) (hst : (r.1.jobs x).state ≠ .unscheduled)
     (hlt : ∀ e, r.2 = some e → e < (r.1.jobs x).deps.length) (h : InvQF r.1) : InvQF (enterTail fl r x) := by
@@ -4948,9 +5008,12 @@ theorem enterTail_invQ (fl : Flags) (hg : fl.readyGuarded = true) (r : St × Opt
   cases fa with
   | some d =>
     simp only
-    have hc := check_invQ fl hg s1 x d _ none hL ⟨hst, hlt d rfl⟩ (by intro p hp; cases hp) h
-    have hst' : ((s1.check fl x d).jobs x).state ≠ .unscheduled := by
-      rw [check_job]; exact (depChanged_mono fl hg _ _ _).1 hst
+    obtain ⟨hl, e⟩ := abortRelease_job fl s1 x
+    have hstA : ((abortRelease fl s1 x).jobs x).state ≠ .unscheduled := by rw [e]; exact hst
+    have hc := check_invQ fl hg (abortRelease fl s1 x) x d _ none (abortRelease_jl fl s1 x hL)
+      ⟨hstA, by rw [e]; exact hlt d rfl⟩ (by intro p hp; cases hp) (abortRelease_invQ fl s1 x _ none h)
+    have hst' : (((abortRelease fl s1 x).check fl x d).jobs x).state ≠ .unscheduled := by
+      rw [check_job]; exact (depChanged_mono fl hg _ _ _).1 hstA
     exact put_invQ _ x _ _ _ _ none rfl (fun _ => Or.inl hst') (fun r e => (by cases e)) hc
   | none =>
     simp only
@@ -5071,19 +5134,19 @@ theorem runCb_invQ (fl : Flags) (hg : fl.readyGuarded = true) (s : St) (cb : Cb)
 
 
 /-- all step-level layers, including "no lost notification". -/
-structure InvG (s : St) : Prop where
-  e : InvE s
+structure InvG (fl : Flags) (s : St) : Prop where
+  e : InvE fl s
   nolost : InvQF s
 
-theorem step_invG (fl : Flags) (hg : fl.readyGuarded = true) (ha : fl.abortRechecks = true) (s : St) (h : InvG s) :
-    InvG (s.step fl) := by
+theorem step_invG (fl : Flags) (hg : fl.readyGuarded = true) (ha : fl.abortRechecks = true) (s : St) (h : InvG fl s) :
+    InvG fl (s.step fl) := by
   refine ⟨step_invE fl hg ha s h.e, ?_⟩
   unfold St.step; split
   · exact h.nolost
   · rename_i cb rest hr; exact runCb_invQ fl hg s cb rest h.e.c hr h.nolost
 
 theorem apply_invG (fl : Flags) (hg : fl.readyGuarded = true) (ha : fl.abortRechecks = true) (s : St) (ev : Ev)
-    (hok : EvOK s ev) (h : InvG s) : InvG (s.apply fl ev) := by
+    (hok : EvOK s ev) (h : InvG fl s) : InvG fl (s.apply fl ev) := by
   cases ev with
   | step => exact step_invG fl hg ha s h
   | wait =>
@@ -5101,7 +5164,7 @@ theorem apply_invG (fl : Flags) (hg : fl.readyGuarded = true) (ha : fl.abortRech
     rw [apply_submit]
     have hpcn := h.e.c.a.blank s.n (Nat.le_refl _)
     have hun : (s.jobs s.n).state = .unscheduled := h.e.c.f s.n (Or.inl hpcn)
-    have hE0 : InvE (submitPre s ident deps code marker) := by
+    have hE0 : InvE fl (submitPre s ident deps code marker) := by
       have := apply_invE fl hg ha s (.submit ident deps code marker) hok h.e
       -- rebuild from the parts (the event-level lemma is about the whole event): use the pre-state lemmas directly
       refine ⟨submitPre_invC s ident deps code marker hok h.e.c, ?_⟩
@@ -5132,7 +5195,7 @@ theorem apply_invG (fl : Flags) (hg : fl.readyGuarded = true) (ha : fl.abortRech
         rcases hp with hp | hp
         · exact Or.inl (Or.inl hp)
         · exact Or.inr (Or.inl hp)
-    have h1 := steps_ind (fun s' => InvG s' ∧ (s'.jobs s.n).pc = .none) fl
+    have h1 := steps_ind (fun s' => InvG fl s' ∧ (s'.jobs s.n).pc = .none) fl
       (fun s' hs' => ⟨step_invG fl hg ha s' hs'.1, by
         rw [step_kind0 fl s' hs'.1.e.c.a.ctl s.n (by rw [hs'.2]; rfl)]; exact hs'.2⟩)
       (s.ready.length + 1) _ ⟨⟨hE0, hQ0⟩, by simp [submitPre, newJob]⟩
@@ -5145,7 +5208,7 @@ theorem apply_invG (fl : Flags) (hg : fl.readyGuarded = true) (ha : fl.abortRech
     · refine put_invQ _ s.n _ _ _ _ none rfl (fun hs => absurd hun2 hs) (fun r e => (by cases e)) ?_
       exact invQ_congr (s := s2) rfl rfl rfl rfl rfl hG.nolost
 
-theorem init_invG (totals : List Nat) : InvG (St.init totals) := by
+theorem init_invG (totals : List Nat) : InvG fl (St.init totals) := by
   refine ⟨init_invE totals, ?_, ?_, ?_, ?_⟩
   · intro j i t c hs; simp [InScope, St.init] at hs
   · intro j i o hs; simp [InScope, St.init] at hs
@@ -5153,7 +5216,7 @@ theorem init_invG (totals : List Nat) : InvG (St.init totals) := by
   · intro j i o r hs; simp [InScope, St.init] at hs
 
 theorem reachable_invG {fl : Flags} (hg : fl.readyGuarded = true) (ha : fl.abortRechecks = true)
-    {totals : List Nat} {s : St} (h : Reachable fl totals s) : InvG s := by
+    {totals : List Nat} {s : St} (h : Reachable fl totals s) : InvG fl s := by
   induction h with
   | init => exact init_invG totals
   | next _ hok ih => exact apply_invG fl hg ha _ _ hok ih
@@ -5493,7 +5556,7 @@ theorem quiescent_tokens_full {fl : Flags} {totals : List Nat} {s : St} (h : Rea
 
 /-- invariant B + H at quiescence: a job whose coroutine is alive sleeps on its event, WAITING, with an
     unsatisfied dependency recorded as WAIT. -/
-theorem quiescent_alive_sleeps {s : St} (hG : InvG s) (hr : s.ready = []) (ht : s.threads = []) (j : Nat)
+theorem quiescent_alive_sleeps {fl : Flags} {s : St} (hG : InvG fl s) (hr : s.ready = []) (ht : s.threads = []) (j : Nat)
     (hk : pcKind (s.jobs j).pc ≠ 0) :
     (s.jobs j).pc = .evtWait ∧ (s.jobs j).state = .waiting ∧
     ∃ i, i < (s.jobs j).deps.length ∧ (depAt (s.jobs j) i).cur = .wait := by
